@@ -35,6 +35,9 @@ type c14Case struct {
 	Entity       string `json:"entity"`    // bug | identity
 	Mode         string `json:"mode"`      // dag | cache | cli
 	OthersPushed bool   `json:"others_pushed"`
+	// Packed: the refs are packed (git pack-refs --all, what git gc does) before the removal, so that they
+	// live in .git/packed-refs and not as loose files
+	Packed bool `json:"packed,omitempty"`
 }
 
 func genC14(t *rapid.T) c14Case {
@@ -55,6 +58,7 @@ func genC14(t *rapid.T) c14Case {
 		c.Mode = "cache" // there is no CLI command removing an identity
 	}
 	c.OthersPushed = rapid.Bool().Draw(t, "othersPushed")
+	c.Packed = rapid.IntRange(0, 2).Draw(t, "packed") == 0
 	return c
 }
 
@@ -195,6 +199,11 @@ func runC14(tb report.TB, rep *report.Reporter, c c14Case) {
 		}
 		return out
 	}
+	if c.Packed {
+		if res := RunGit(main, "pack-refs", "--all"); res.Code != 0 {
+			tb.Fatalf("harness: git pack-refs: %s", res.Out)
+		}
+	}
 	before := allRefs()
 	othersBefore, _ := readAllBugs(repo)
 
@@ -211,7 +220,7 @@ func runC14(tb report.TB, rep *report.Reporter, c c14Case) {
 	}
 	pushedClass := fmt.Sprintf("remotes:%d/holding:%d", c.NRemotes, holders)
 	rep.Case(fmt.Sprintf("%s|%s|%s|o%d|s%d|e%d", c.Entity, c.Mode, pushedClass, c.Others, c.SharePfx, c.Edits), holders >= 1 && c.Others >= 1,
-		[]string{"entity:" + c.Entity, "mode:" + c.Mode, pushedClass}, c)
+		[]string{"entity:" + c.Entity, "mode:" + c.Mode, pushedClass, fmt.Sprintf("packed-refs:%v", c.Packed)}, c)
 
 	// ---- the removal
 	_ = repo.Close()
@@ -485,12 +494,14 @@ type c14WipeCase struct {
 	Remote        bool   `json:"remote"`
 	RemoteOnlyBug bool   `json:"remote_only_bug"` // a remote-tracking ref of a bug that is not local
 	ExtraConfig   bool   `json:"extra_config"`
+	Packed        bool   `json:"packed,omitempty"` // git pack-refs --all before the wipe
 }
 
 func genC14Wipe(t *rapid.T) c14WipeCase {
 	return c14WipeCase{Seed: rapid.Uint64().Draw(t, "seed"), WithIdentity: rapid.IntRange(0, 3).Draw(t, "ident") > 0,
 		Bugs: rapid.IntRange(0, 4).Draw(t, "bugs"), Bridge: rapid.Bool().Draw(t, "bridge"), Remote: rapid.Bool().Draw(t, "remote"),
-		RemoteOnlyBug: rapid.Bool().Draw(t, "remoteOnly"), ExtraConfig: rapid.Bool().Draw(t, "extraConfig")}
+		RemoteOnlyBug: rapid.Bool().Draw(t, "remoteOnly"), ExtraConfig: rapid.Bool().Draw(t, "extraConfig"),
+		Packed: rapid.IntRange(0, 2).Draw(t, "packed") == 0}
 }
 
 func runC14Wipe(tb report.TB, rep *report.Reporter, c c14WipeCase) {
@@ -545,6 +556,11 @@ func runC14Wipe(tb report.TB, rep *report.Reporter, c c14WipeCase) {
 	if c.Bridge {
 		RunGit(main, "config", "git-bug.bridge.mybridge.target", "gitlab")
 		RunGit(main, "config", "git-bug.bridge.mybridge.project-id", "42")
+	}
+	if c.Packed {
+		if res := RunGit(main, "pack-refs", "--all"); res.Code != 0 {
+			tb.Fatalf("harness: git pack-refs: %s", res.Out)
+		}
 	}
 	hostBefore := RunGit(main, "for-each-ref", "refs/heads", "refs/tags").Out
 	res := RunCLI(main, "wipe")
@@ -613,4 +629,113 @@ func fullId(dir, prefix string) string {
 
 func TestC14Wipe(t *testing.T) {
 	Drive(t, "C14", genC14Wipe, runC14Wipe)
+}
+
+// ---------------------------------------------------------------- RemoveAll through the cache (what wipe calls)
+
+type c14AllCase struct {
+	Seed       uint64 `json:"seed"`
+	Identities int    `json:"identities"`
+	Bugs       int    `json:"bugs"`
+	Packed     bool   `json:"packed"`
+	Remote     bool   `json:"remote"`
+}
+
+func genC14All(t *rapid.T) c14AllCase {
+	return c14AllCase{Seed: rapid.Uint64().Draw(t, "seed"), Identities: rapid.IntRange(1, 24).Draw(t, "identities"), Bugs: rapid.IntRange(0, 24).Draw(t, "bugs"),
+		Packed: rapid.IntRange(0, 3).Draw(t, "packed") > 0, Remote: rapid.Bool().Draw(t, "remote")}
+}
+
+// runC14All: RepoCache.RemoveAll (the first step of wipe) leaves no local git-bug ref, whatever the number of
+// entities and wherever the refs are stored (loose files or .git/packed-refs).
+func runC14All(tb report.TB, rep *report.Reporter, c c14AllCase) {
+	entropy.Seed(c.Seed)
+	dir := mkdirTemp("c14all-")
+	defer os.RemoveAll(dir)
+	main := filepath.Join(dir, "main")
+	repo, err := repository.InitGoGitRepo(main, "git-bug")
+	if err != nil {
+		tb.Fatalf("harness: %v", err)
+	}
+	var me *identity.Identity
+	for n := 0; n < c.Identities; n++ {
+		id, _, _, err := ondisk.WriteIdentity(repo, "", []ondisk.IdentityVersion{{Version: 2, UnixTime: 1600000000 + int64(n), Name: fmt.Sprintf("user %d", n), Nonce: NonceFor(c.Seed, 11_000_000+n)}})
+		if err != nil {
+			tb.Fatalf("harness: %v", err)
+		}
+		if n == 0 {
+			if me, err = identity.ReadLocal(repo, entity.Id(id)); err != nil {
+				tb.Fatalf("harness: %v", err)
+			}
+		}
+	}
+	for n := 0; n < c.Bugs; n++ {
+		create := bug.NewCreateOp(me, 1000, fmt.Sprintf("bug %d", n), "body", nil)
+		create.Nonce = NonceFor(c.Seed, 11_100_000+n)
+		b := bug.NewBug()
+		b.Append(create)
+		if err := b.Commit(repo); err != nil {
+			tb.Fatalf("harness: %v", err)
+		}
+	}
+	if c.Remote {
+		rp := filepath.Join(dir, "remote")
+		if _, err := repository.InitBareGoGitRepo(rp, "git-bug"); err != nil {
+			tb.Fatalf("harness: %v", err)
+		}
+		if err := repo.AddRemote("origin", rp); err != nil {
+			tb.Fatalf("harness: %v", err)
+		}
+		if _, err := identity.Push(repo, "origin"); err != nil {
+			tb.Fatalf("harness: %v", err)
+		}
+		if _, err := bug.Push(repo, "origin"); err != nil {
+			tb.Fatalf("harness: %v", err)
+		}
+		if _, err := identity.Fetch(repo, "origin"); err != nil {
+			tb.Fatalf("harness: %v", err)
+		}
+		if _, err := bug.Fetch(repo, "origin"); err != nil {
+			tb.Fatalf("harness: %v", err)
+		}
+	}
+	_ = repo.Close()
+	if c.Packed {
+		if res := RunGit(main, "pack-refs", "--all"); res.Code != 0 {
+			tb.Fatalf("harness: git pack-refs: %s", res.Out)
+		}
+	}
+	cls := []string{fmt.Sprintf("packed:%v", c.Packed), fmt.Sprintf("remote:%v", c.Remote)}
+	if c.Bugs > 0 && c.Identities > 1 {
+		cls = append(cls, "both-kinds-several")
+	}
+	rep.Case(fmt.Sprintf("i%d|b%d|%v|%v", c.Identities, c.Bugs, c.Packed, c.Remote), c.Packed && c.Bugs > 0, cls, c)
+	r2, err := repository.OpenGoGitRepo(main, "git-bug", nil)
+	if err != nil {
+		tb.Fatalf("harness: %v", err)
+	}
+	rc, err := cache.NewRepoCacheNoEvents(r2)
+	if err != nil {
+		_ = r2.Close()
+		tb.Fatalf("harness: cache: %v", err)
+	}
+	err = rc.RemoveAll()
+	_ = rc.Close()
+	if err != nil {
+		rep.Fail(tb, "C14/remove-all/fails/"+Normalize(err.Error()), err.Error(), c)
+		return
+	}
+	// judged by stock git
+	left := strings.Fields(RunGit(main, "for-each-ref", "--format=%(refname)", "refs/bugs", "refs/identities", "refs/remotes/origin/bugs", "refs/remotes/origin/identities").Out)
+	if len(left) > 0 {
+		where := "loose"
+		if c.Packed {
+			where = "packed"
+		}
+		rep.Fail(tb, "C14/remove-all/ref-left/"+where, fmt.Sprintf("RepoCache.RemoveAll returned nil, %d of %d git-bug refs are still there: %v", len(left), c.Identities+c.Bugs, left), c)
+	}
+}
+
+func TestC14RemoveAll(t *testing.T) {
+	Drive(t, "C14", genC14All, runC14All)
 }
